@@ -9,11 +9,12 @@ import (
 	"encoding/xml"
 	"errors"
 	"fmt"
+	"os"
 	"strings"
 	"time"
 
-	"mellium.im/xmpp/bookmarks"
 	"mellium.im/xmpp/blocklist"
+	"mellium.im/xmpp/bookmarks"
 	"mellium.im/xmpp/carbons"
 	"mellium.im/xmpp/commands"
 	"mellium.im/xmpp/delay"
@@ -126,12 +127,19 @@ func (w *world) scriptedPeer(replies []string, stop <-chan struct{}) {
 				rep = replies[n-1]
 			}
 			rep = strings.ReplaceAll(rep, "{ID}", esc(id))
-			if _, clean := wireElement([]byte(rep)); !clean {
+			_, clean := wireElement([]byte(rep))
+			if !clean {
 				// damaged reply: make sure it ends (an element left open would
 				// just make the session wait for more input)
 				rep += "</stream:stream>"
 			}
-			if taken, _ := w.send([]byte(rep)); !taken {
+			taken, _ := w.send([]byte(rep))
+			if !clean {
+				// ... and that the input really ends: an unterminated comment,
+				// processing instruction or attribute value would swallow the tag
+				w.pipe.Peer.Close()
+			}
+			if !taken {
 				return
 			}
 		}
@@ -177,6 +185,9 @@ func (w *world) setup(ops []string) {
 			}()
 		case "ibb-listen-noaccept":
 			w.ibbh.Listen(w.sess)
+			w.stMu.Lock()
+			w.ibbNoAccept = true
+			w.stMu.Unlock()
 		case "receipt-pending":
 			go func() {
 				_ = w.rcpt.SendMessageElement(w.ctx, w.sess, nil, stanza.Message{ID: "r1", To: remoteJID, Type: stanza.ChatMessage})
@@ -217,14 +228,21 @@ func runServe(c Case) Obs {
 		}
 	}
 	if !stuck {
-		switch c.End {
-		case "eof":
-			w.pipe.Peer.Close()
-		default:
+		// the input ends: with or without the closing stream tag, the
+		// connection is closed (an unterminated comment, processing instruction
+		// or attribute value in the input would otherwise swallow the tag and
+		// leave Serve rightly waiting for more)
+		if c.End != "eof" {
 			w.send([]byte("</stream:stream>"))
+			w.waitServe(time.Second) // not an oracle: only spares the normal case a broken pipe
 		}
+		w.pipe.Peer.Close()
 	}
-	returned := w.waitServe(watchdog)
+	wait := watchdog
+	if stuck {
+		wait = time.Second // the watchdog has already expired once, in the write
+	}
+	returned := w.waitServe(wait)
 	switch {
 	case !returned:
 		o.Class = "blocked"
@@ -241,6 +259,9 @@ func runServe(c Case) Obs {
 		o.Class = "err"
 	default:
 		o.Class = "ok"
+	}
+	if os.Getenv("C09_DEBUG") != "" {
+		fmt.Fprintf(os.Stderr, "DEBUG local=%s class=%s err=%v wrote=%s\n", w.sess.LocalAddr(), o.Class, w.serveErr, w.pipe.Written())
 	}
 	o.Classes = append(o.Classes, "serve/"+o.Class, fmt.Sprintf("seq-len/%d", len(c.Seq)), "end/"+c.End)
 	if c.Tap {
@@ -488,6 +509,9 @@ func runHelper(c Case) Obs {
 	// whatever the reply was, the session must go on and end with its input
 	if returned {
 		w.send([]byte("</stream:stream>"))
+		if !w.waitServe(time.Second) {
+			w.pipe.Peer.Close()
+		}
 		if !w.waitServe(watchdog) {
 			fr := libFrame(goroutineWith("main.serveMarker"))
 			o.fail("C09/helper/"+c.Helper+"/serve-wedged", "after the helper returned ("+o.Class+") Serve did not return at the end of input; it is parked in "+fr+" (the response was never closed)")
